@@ -298,7 +298,8 @@ Definition ord_step (fuel : nat) (len : Z -> Q) (c : cell) (st : ordst) (id : Z)
             | None => walk_up fuel len c s 0%Q
             | Some pdv =>
               match alookup (o_pp st) p with
-              | Some ppv => Ok (ppv + (pdv - ppv) * f)%Q
+              | Some ppv => Ok (Qred (ppv + (pdv - ppv) * f))   (* same value, reduced fraction (keeps the
+                                                                   kernel computation small on long chains) *)
               | None => Err EKey
               end
             end
